@@ -541,6 +541,32 @@ class Fold(ast.NodeTransformer):
             self.changed = True
         return node
 
+    def visit_Dict(self, node):
+        self.generic_visit(node)
+        if any(k is None and isinstance(v, ast.Dict) and all(x is not None for x in v.keys) for k, v in zip(node.keys, node.values)):
+            ks, vs = [], []
+            for k, v in zip(node.keys, node.values):
+                if k is None and isinstance(v, ast.Dict) and all(x is not None for x in v.keys):
+                    ks.extend(v.keys)
+                    vs.extend(v.values)
+                else:
+                    ks.append(k)
+                    vs.append(v)
+            # later duplicates of a constant key override earlier ones, keeping the position of the first (dict display semantics)
+            seen, ks2, vs2 = {}, [], []
+            for k, v in zip(ks, vs):
+                ck = _const_key(k) if k is not None else None
+                if ck is not None and ck in seen and all(_pure(x) for x in vs):
+                    vs2[seen[ck]] = v
+                    continue
+                if ck is not None:
+                    seen[ck] = len(ks2)
+                ks2.append(k)
+                vs2.append(v)
+            node.keys, node.values = ks2, vs2
+            self.changed = True
+        return node
+
     def visit_Tuple(self, node):
         return self._flatten_stars(node)
 
@@ -1508,6 +1534,131 @@ def _induction_vars(fn):
     return changed[0]
 
 
+def _modern_syntax(fn):
+    """statement-level lowering of newer syntax to the forms the rules know:
+         if (n := E) > k: ..        ->  n = E ; if n > k: ..           (the named expression is the first thing the statement evaluates)
+         match x: case 1: A  case 2 | 3: B  case _: C   ->   if x == 1: A elif x in (2, 3): B else: C      (literal / dotted-name / wildcard patterns only)
+         del name / pass / ... inside non-empty blocks, a trailing bare `return` / `return None` of a procedure      ->  removed"""
+    changed = [False]
+
+    def first_named(e):
+        """the NamedExpr that is evaluated before anything effectful in e, or None"""
+        if isinstance(e, ast.NamedExpr):
+            return e if isinstance(e.target, ast.Name) and not any(isinstance(x, ast.NamedExpr) for x in ast.walk(e.value)) else None
+        if isinstance(e, ast.Compare):
+            return first_named(e.left)
+        if isinstance(e, ast.BoolOp):
+            return first_named(e.values[0])
+        if isinstance(e, ast.UnaryOp):
+            return first_named(e.operand)
+        if isinstance(e, ast.BinOp):
+            return first_named(e.left)
+        if isinstance(e, ast.Call) and isinstance(e.func, (ast.Name, ast.Attribute)) and _pure(e.func):
+            return first_named(e.args[0]) if e.args and not isinstance(e.args[0], ast.Starred) else None
+        if isinstance(e, ast.Subscript):
+            return first_named(e.value)
+        if isinstance(e, ast.Attribute):
+            return first_named(e.value)
+        return None
+
+    def pattern_test(subj, pat):
+        if isinstance(pat, ast.MatchValue) and (_const_key(pat.value) is not None or _type_ref(pat.value)):
+            return ast.Compare(left=copy.deepcopy(subj), ops=[ast.Eq()], comparators=[pat.value])
+        if isinstance(pat, ast.MatchSingleton):
+            return ast.Compare(left=copy.deepcopy(subj), ops=[ast.Is()], comparators=[ast.Constant(value=pat.value)])
+        if isinstance(pat, ast.MatchOr):
+            parts = [pattern_test(subj, p) for p in pat.patterns]
+            if any(p is None for p in parts):
+                return None
+            if all(isinstance(p, ast.Compare) and isinstance(p.ops[0], ast.Eq) and _const_key(p.comparators[0]) is not None for p in parts):
+                return ast.Compare(left=copy.deepcopy(subj), ops=[ast.In()], comparators=[ast.Tuple(elts=[p.comparators[0] for p in parts], ctx=ast.Load())])
+            return ast.BoolOp(op=ast.Or(), values=parts)
+        return None
+
+    def block(stmts, is_fn_body=False):
+        out = []
+        for s in stmts:
+            for fld in ('body', 'orelse', 'finalbody'):
+                v = getattr(s, fld, None)
+                if isinstance(v, list) and v and isinstance(v[0], ast.stmt) and not isinstance(s, (ast.FunctionDef, ast.ClassDef)):
+                    setattr(s, fld, block(v) or ([ast.Pass()] if fld == 'body' else []))
+            if isinstance(s, ast.Try):
+                for h in s.handlers:
+                    h.body = block(h.body) or [ast.Pass()]
+            if hasattr(ast, 'Match') and isinstance(s, ast.Match):
+                for c in s.cases:
+                    c.body = block(c.body) or [ast.Pass()]
+                subj = s.subject
+                ok = _pure(subj) and isinstance(subj, (ast.Name, ast.Attribute, ast.Subscript, ast.Constant))
+                tests, default = [], None
+                for i, c in enumerate(s.cases):
+                    if c.guard is not None:
+                        ok = False
+                        break
+                    if isinstance(c.pattern, ast.MatchAs) and c.pattern.pattern is None and c.pattern.name is None:
+                        if i != len(s.cases) - 1:
+                            ok = False
+                        default = c.body
+                        continue
+                    t = pattern_test(subj, c.pattern)
+                    if t is None:
+                        ok = False
+                        break
+                    tests.append((t, c.body))
+                if ok and tests:
+                    chain = list(default or [])
+                    for t, body in reversed(tests):
+                        node = ast.If(test=t, body=body, orelse=chain)
+                        ast.copy_location(node, s)
+                        chain = [node]
+                    ast.fix_missing_locations(chain[0])
+                    out.extend(chain)
+                    changed[0] = True
+                    continue
+            # walrus in the head of a simple statement
+            head = None
+            if isinstance(s, ast.If):
+                head = 'test'
+            elif isinstance(s, (ast.Assign, ast.Return, ast.Expr, ast.AugAssign)) and getattr(s, 'value', None) is not None:
+                head = 'value'
+            if head:
+                ne = first_named(getattr(s, head))
+                if ne is not None:
+                    asg = ast.Assign(targets=[ast.Name(id=ne.target.id, ctx=ast.Store())], value=ne.value)
+                    ast.copy_location(asg, s)
+                    ast.fix_missing_locations(asg)
+
+                    class Rp(ast.NodeTransformer):
+                        def visit_NamedExpr(self, n):
+                            if n is ne:
+                                return ast.copy_location(ast.Name(id=ne.target.id, ctx=ast.Load()), n)
+                            return self.generic_visit(n)
+                    setattr(s, head, Rp().visit(getattr(s, head)))
+                    out.append(asg)
+                    out.append(s)
+                    changed[0] = True
+                    continue
+            if isinstance(s, ast.Delete) and all(isinstance(t, ast.Name) for t in s.targets):
+                changed[0] = True
+                continue
+            if isinstance(s, ast.Expr) and isinstance(s.value, ast.Constant) and s.value.value is Ellipsis and len(stmts) > 1:
+                changed[0] = True
+                continue
+            if isinstance(s, ast.Pass) and len(stmts) > 1:
+                changed[0] = True
+                continue
+            out.append(s)
+        return out
+    fn.body = block(fn.body) or [ast.Pass()]
+    # a trailing `return` / `return None` of a procedure
+    if len(fn.body) > 1 and isinstance(fn.body[-1], ast.Return) and (fn.body[-1].value is None or (isinstance(fn.body[-1].value, ast.Constant) and fn.body[-1].value.value is None)) \
+            and all(n.value is None or (isinstance(n.value, ast.Constant) and n.value.value is None) for st in fn.body for n in ast.walk(st) if isinstance(n, ast.Return)) \
+            and not any(isinstance(n, (ast.Yield, ast.YieldFrom)) for n in ast.walk(fn)):
+        fn.body = fn.body[:-1]
+        changed[0] = True
+    return changed[0]
+
+
 def _reduce_loops(fn, ctx):
     """x = reduce(f, seq, init)  ->  x = init ; for e in seq: x = f(x, e)       (statement-level assignment / return of a functools.reduce call)"""
     _, red, mods = ctx
@@ -1706,6 +1857,7 @@ def simplify_function(fn, ctx, inliner, cls):
         changed |= _destructure_loop_targets(fn)
         changed |= _bool_flags(fn)
         changed |= _flatten_product_loops(fn)
+        changed |= _modern_syntax(fn)
         changed |= _induction_vars(fn)
         if _propagate_locals(fn, ctx):
             changed = True
